@@ -96,8 +96,8 @@ func TestC12Fuzz(t *testing.T) {
 		Name, Enc string
 		Budget    int
 	}{
-		{"FuzzC12Proto", "protobuf", env.Pick(300_000, 20_000_000)},
-		{"FuzzC12JSON", "json", env.Pick(100_000, 5_000_000)},
+		{"FuzzC12Proto", "protobuf", env.Pick(300_000, 10_000_000)},
+		{"FuzzC12JSON", "json", env.Pick(100_000, 2_000_000)},
 	}
 	meta := vrun.Meta{Property: "C12", Workload: "TestC12Fuzz", Total: len(targets),
 		Rule:        fmt.Sprintf("one case per decoder: the Go fuzzing engine (coverage-guided, instrumented build of this package and the library) mutates from the corpus of valid encodings of every message type for an iteration budget (protobuf %d executions, JSON %d; -fuzztime=Nx, no time budget) with the same decode/round-trip oracle as the other workloads; a failing input is read back from the engine's crasher file and reported as a violation, its key is then ignored and the remaining budget is spent (up to 6 rounds). Non-trivial: the engine executed at least 90%% of the budget and reported new coverage; distinct: target.", targets[0].Budget, targets[1].Budget),
